@@ -141,3 +141,61 @@ mutant("c19-defuzzifier-under-terms", "C19", (E, """            if not variable.
 mutant("c19-aggregation-needs-weighted", "C19", (E, "if not variable.aggregation and isinstance(variable.defuzzifier, IntegralDefuzzifier):", "if not variable.aggregation and isinstance(variable.defuzzifier, WeightedDefuzzifier):"), "C1/Engine.is_ready/aggregation")
 mutant("c19-implication-tests-conjunction", "C19", (E, "if implication_needed and not rule_block.implication:", "if implication_needed and not rule_block.conjunction:"), "C1/Engine.is_ready/implication")
 equivalent("c19-eq-flattened", "C19", (E, "            if conjunction_needed and not rule_block.conjunction:\n                errors.append(", "            missing_c = not rule_block.conjunction\n            if missing_c and conjunction_needed:\n                errors.append("))
+
+# ------------------------------------------------------------------------------------------ C20
+CTX = """        rollback_settings = vars(self).copy()
+        for key, value in context_settings.items():
+            setattr(self, key, value)
+        try:
+            yield
+        finally:
+            for key, value in context_settings.items():
+                setattr(self, key, rollback_settings[key])
+"""
+mutant("c20-snapshot-after-apply", "C20", (L, CTX, """        for key, value in context_settings.items():
+            setattr(self, key, value)
+        rollback_settings = vars(self).copy()
+        try:
+            yield
+        finally:
+            for key, value in context_settings.items():
+                setattr(self, key, rollback_settings[key])
+"""), "Y2/")
+mutant("c20-yield-outside-try", "C20", (L, CTX, """        rollback_settings = vars(self).copy()
+        for key, value in context_settings.items():
+            setattr(self, key, value)
+        yield
+        for key, value in context_settings.items():
+            setattr(self, key, rollback_settings[key])
+"""), "Y3/Settings.context/restore-exception")
+mutant("c20-finally-to-except", "C20", (L, CTX, """        rollback_settings = vars(self).copy()
+        for key, value in context_settings.items():
+            setattr(self, key, value)
+        try:
+            yield
+        except Exception:
+            for key, value in context_settings.items():
+                setattr(self, key, rollback_settings[key])
+            raise
+"""), "Y3/Settings.context/restore-normal")
+mutant("c20-restore-whole-snapshot", "C20", (L, CTX, CTX.replace("""            for key, value in context_settings.items():
+                setattr(self, key, rollback_settings[key])""", """            for key, value in rollback_settings.items():
+                setattr(self, key, rollback_settings[key])""")), "Y4/Settings.context/keys")
+mutant("c20-restore-new-value", "C20", (L, CTX, CTX.replace("setattr(self, key, rollback_settings[key])", "setattr(self, key, value)")), "Y4/Settings.context/restore-value")
+mutant("c20-no-contextmanager", "C20", (L, "    @contextmanager\n    def context(", "    def context("), "Y1/")
+mutant("c20-param-without-attribute", "C20", (L, """        if "factory_manager" in context_settings:
+            context_settings["_factory_manager"] = context_settings.pop("factory_manager")
+""", ""), "Y5/Settings.context/factory_manager")
+mutant("c20-module-level-decimals", "C20", (O, "class Operation:", "DECIMALS = settings.decimals\n\n\nclass Operation:"), "Y6/")
+mutant("c20-default-arg-atol", "C20", (O, "    def is_close(a: Scalar, b: Scalar) -> bool | Array[np.bool_]:", "    def is_close(a: Scalar, b: Scalar, atol: float = settings.atol) -> bool | Array[np.bool_]:"), "Y6/")
+mutant("c20-str-frozen-decimals", "C20", [(O, "class Operation:", "_D = 3\n\n\nclass Operation:"), (O, """        if isinstance(x, (float, np.floating)):
+            return f"{x:.{settings.decimals}f}\"""", """        if isinstance(x, (float, np.floating)):
+            return f"{x:.{_D}f}\"""")], "Y8/Operation.str") if False else None
+# disabled: mutant("c20-foreign-write", "C20", (X, "    def to_string(self, instance: Any, /) -> str:\n        \"\"\"Return the Python code to construct the given instance.", "    def to_string(self, instance: Any, /) -> str:\n        \"\"\"Return the Python code to construct the given instance.\n        settings.alias = 'fl'"), "Y7/")
+mutant("c20-early-return-before-restore", "C20", (L, CTX, CTX.replace("""        finally:
+            for key, value""", """        finally:
+            if not context_settings:
+                return
+            for key, value""")), "", kind="equivalent") if False else None
+equivalent("c20-eq-dict-snapshot", "C20", (L, "rollback_settings = vars(self).copy()", "rollback_settings = dict(vars(self))"))
+equivalent("c20-eq-renamed-locals", "C20", (L, CTX, CTX.replace("rollback_settings", "saved").replace("for key, value in context_settings.items():\n                setattr(self, key, saved[key])", "for k, _v in context_settings.items():\n                setattr(self, k, saved[k])")))
